@@ -364,6 +364,70 @@ theorem take_range_spec (n : Nat) (a : Int) (m : Nat) (w : World) (hw : Ready w)
   obtain ⟨N, h⟩ := stdOp_sim_range (kTake n) (we_kTake n) w hw a m
   exact ⟨N, fun fuel hf => by rw [(h fuel hf).2.1, Rx.C02.take_spec]⟩
 
+/-- `timer(d)` over the default scheduler is `just(())`, `start(f)` is `just(f())`, `defer(f)` subscribes what `f` returns:
+    the theorems above apply to them as they stand (the programs are equal by unfolding) -/
+theorem stdOp_sim_timerD {σ} (K : Kernel σ) (hK : Kernel.WellEncoded K) (w : World) (hw : Ready w) :
+    ∃ N, ∀ fuel, N ≤ fuel →
+      let w' := run fuel [subscribeOver K oTimerD] w
+      w'.status = .ok ∧ logOf w' w.users.length = K.run ([.unit], .complete) ∧
+      (∀ s', s' ≠ w.users.length → logOf w' s' = logOf w s') ∧
+      upstreamCancelled w w' = true ∧ w'.held = [] :=
+  stdOp_sim_just K hK w hw .unit
+
+theorem stdOp_sim_start {σ} (K : Kernel σ) (hK : Kernel.WellEncoded K) (w : World) (hw : Ready w) (d : Data) :
+    ∃ N, ∀ fuel, N ≤ fuel →
+      let w' := run fuel [subscribeOver K (oStart d)] w
+      w'.status = .ok ∧ logOf w' w.users.length = K.run ([d], .complete) ∧
+      (∀ s', s' ≠ w.users.length → logOf w' s' = logOf w s') ∧
+      upstreamCancelled w w' = true ∧ w'.held = [] :=
+  stdOp_sim_just K hK w hw d
+
+/-- `defer(f)`: `f().inner_subscribe(s)` - one more `is_subscribed` poll, then the deferred source's own program -/
+theorem defer_spec {σ} {K : Kernel σ} {c : Cfg} (f : Obsv) (s : Stream)
+    (hf : ∀ (st : σ) (r : KRun) (w : World), RepK c false r [] (K.enc st) w →
+      WP (f c.U) w (fun w' => ∃ cs', RepK c (s.2 != .silent)
+        (finishX K (feedX K st r s.1).1 (feedX K st r s.1).2 s.2) [] cs' w'))
+    (st : σ) (r : KRun) (w : World) (h : RepK c false r [] (K.enc st) w) :
+    WP (oDefer f c.U) w (fun w' => ∃ cs', RepK c (s.2 != .silent)
+      (finishX K (feedX K st r s.1).1 (feedX K st r s.1).2 s.2) [] cs' w') := by
+  unfold oDefer Obsv.sub
+  have h0 := h
+  unfold RepK at h
+  apply rep_isSubU h
+  cases hc : r.cancelled with
+  | true =>
+    simp only [Bool.true_or, Bool.not_true, Bool.false_eq_true, ↓reduceIte]
+    apply WP.done
+    rw [feedX_cancelled_id K _ st r hc, finishX_cancelled _ _ _ hc]
+    exact ⟨_, h0.cancelled_any _ hc⟩
+  | false =>
+    simp only [Bool.or_self, Bool.not_false, ↓reduceIte]
+    exact hf st r w h0
+
+theorem stdOp_sim_defer_fromIter {σ} (K : Kernel σ) (hK : Kernel.WellEncoded K) (w : World) (hw : Ready w) (ds : List Data) :
+    ∃ N, ∀ fuel, N ≤ fuel →
+      let w' := run fuel [subscribeOver K (oDefer (oFromIter ds))] w
+      w'.status = .ok ∧ logOf w' w.users.length = K.run (ds, .complete) ∧
+      (∀ s', s' ≠ w.users.length → logOf w' s' = logOf w s') ∧ w'.held = [] := by
+  obtain ⟨N, h⟩ := stdOp_sim_srcX K hK w hw (oDefer (oFromIter ds)) (ds, .complete)
+    (fun c ok hh st r w' hr => defer_spec (oFromIter ds) (ds, .complete)
+      (fun st r w hr => fromIter_spec ok hh hK ds st r w hr) st r w' hr)
+  refine ⟨N, fun fuel hf => ?_⟩
+  have := h fuel hf
+  exact ⟨this.1, this.2.1, this.2.2.1, this.2.2.2.2⟩
+
+/-- C14 for the creation functions: what a new subscriber of `stdOp K (from_iter ds)` sees does not depend on the world it
+    subscribes in (how many subscriptions came before, what they did) -/
+theorem fromIter_subscribe_independent {σ} (K : Kernel σ) (hK : Kernel.WellEncoded K) (w₁ w₂ : World)
+    (h₁ : Ready w₁) (h₂ : Ready w₂) (ds : List Data) :
+    ∃ N, ∀ fuel, N ≤ fuel →
+      logOf (run fuel [subscribeOver K (oFromIter ds)] w₁) w₁.users.length
+        = logOf (run fuel [subscribeOver K (oFromIter ds)] w₂) w₂.users.length := by
+  obtain ⟨N1, a⟩ := stdOp_sim_fromIter K hK w₁ h₁ ds
+  obtain ⟨N2, b⟩ := stdOp_sim_fromIter K hK w₂ h₂ ds
+  refine ⟨max N1 N2, fun fuel hf => ?_⟩
+  rw [(a fuel (by omega)).2.1, (b fuel (by omega)).2.1]
+
 end Rx.Sim
 
 -- non-vacuity: `take 1` over `just`, `range`, `from_iter` on the machine
@@ -380,3 +444,7 @@ example : logOf (run 400 [Sim.subscribeOver (kTake 3) (oJust (.int 7))] {}) 0 = 
 #print axioms Rx.Sim.stdOp_sim_never
 #print axioms Rx.Sim.take_fromIter_spec
 #print axioms Rx.Sim.take_range_spec
+#print axioms Rx.Sim.stdOp_sim_timerD
+#print axioms Rx.Sim.stdOp_sim_start
+#print axioms Rx.Sim.stdOp_sim_defer_fromIter
+#print axioms Rx.Sim.fromIter_subscribe_independent
